@@ -317,7 +317,8 @@ def check_series(ctx: fw.Ctx, case: dict, h: dict, script_at: Callable[[int], tu
     """One state lifetime: calls = [(t, retry, end)], script_at(i) = what the i-th entry (global index) did.
     Returns the verdict the property prescribes ('success'/'failure'/None=still running)."""
     N, T = h['retries'], h['timeout']
-    verdict = None
+    # retries=N with N <= 0: "invoked at most N times ... recorded as failed for good" without a single entry
+    verdict = 'failure' if (N is not None and N <= 0) else None
     for j, (t, retry, end) in enumerate(calls):
         a = script_at(first_index + j)
         ctx.count('attempt_outcome', a[0])
@@ -522,7 +523,7 @@ def part_state(ctx: fw.Ctx) -> None:
     K.load()
     r = ctx.rng
     pg, ex = K.progression, K.execution
-    n = ctx.scale(700, 8000)
+    n = ctx.scale(700, 5000)
     cases: dict[str, list[fw.Case]] = {'with_outcome': [], 'predicates': [], 'storage': [], 'state': []}
     loop = vloop.new_loop(0.0)
 
@@ -794,7 +795,7 @@ def do_timer(ctx: fw.Ctx, D: dict, h: dict, script: list, t0: int, interval: int
 def part_drivers(ctx: fw.Ctx) -> None:
     K.load()
     r = ctx.rng
-    n = ctx.scale(170, 7000)
+    n = ctx.scale(170, 5000)
     D: dict[str, list[fw.Case]] = {'activity': [], 'daemon': [], 'timer': []}
     for i in range(n):
         if too_many_hangs(ctx):
@@ -812,6 +813,18 @@ def part_drivers(ctx: fw.Ctx) -> None:
             sharp = r.random() < 0.4
             stop = t0 + Q + 250 * r.randrange(0, 40)
         do_timer(ctx, D, h, script, t0, interval, sharp, stop, i)
+    # hand-seeded dangerous cases (corpus/C11/*.json), incl. the witnesses of the known finding
+    import json
+    for j, path in enumerate(sorted((fw.ROOT / 'corpus' / 'C11').glob('*.json'))):
+        c = json.loads(path.read_text())
+        script = _norm_script(c['script'])
+        ctx.count('corpus', c['driver'])
+        if c['driver'] == 'activity':
+            do_activity(ctx, D, c['handler'], script, c['t0'], 1000 + j)
+        elif c['driver'] == 'daemon':
+            do_daemon(ctx, D, c['handler'], script, c['t0'], c.get('stop'), 1000 + j)
+        elif c['driver'] == 'timer':
+            do_timer(ctx, D, c['handler'], script, c['t0'], c.get('interval'), bool(c.get('sharp')), c['stop'], 1000 + j)
     for name, cs in D.items():
         ctx.differential(name, HEADER, cs, shard=120)
         ctx.cov['traces_validated_against_impl'] += len(cs)
@@ -852,7 +865,7 @@ def one_cycle(reg: Any, settings: Any, raw: dict, wall: int, origin: int, lifecy
 def part_cycles(ctx: fw.Ctx) -> None:
     K.load()
     r = ctx.rng
-    n = ctx.scale(170, 6000)
+    n = ctx.scale(170, 4000)
     env = c_env('T', DEFAULT_BACKOFF)
     cases: list[fw.Case] = []
     for i in range(n):
@@ -935,7 +948,7 @@ def part_subhandlers(ctx: fw.Ctx) -> None:
     K.load()
     from kopf._core.reactor import subhandling
     r = ctx.rng
-    n = ctx.scale(60, 1500)
+    n = ctx.scale(100, 1500)
     env = c_env('T', DEFAULT_BACKOFF)
     cases = []
     for i in range(n):
@@ -1031,7 +1044,7 @@ def part_subhandlers(ctx: fw.Ctx) -> None:
 def part_multi_activity(ctx: fw.Ctx) -> None:
     K.load()
     r = ctx.rng
-    n = ctx.scale(60, 1500)
+    n = ctx.scale(100, 1500)
     env = c_env('T', DEFAULT_BACKOFF)
     cases: list[fw.Case] = []
     for i in range(n):
